@@ -97,6 +97,17 @@ CHECKS = {
              "environment that raises when stepped after an episode end.",
         ref="DESIGN.md §5 C11",
     ),
+    "C07": dict(
+        technique="runtime monitoring: float64 recurrence references + bitwise "
+                  "perturbation (non-interference) oracles on the real functions; "
+                  "PPO advantages captured at the loss boundary of the real update "
+                  "(rebound ppo_loss + ordered jax.debug.callback) fed by the real "
+                  "collector on a scripted vector environment",
+        text="Exploration over reward/value/termination sequences, environments x "
+             "rollout lengths and subtrajectory horizons; estimates are re-computed "
+             "after perturbing data that must not matter and compared bitwise.",
+        ref="DESIGN.md §5 C07",
+    ),
 }
 
 NOT_YET = {}
